@@ -13,6 +13,7 @@ def grpcErrTable : List (String × String) := [
   ("lock.ErrLockDoesNotExist", "LockDoesNotExist"),
   ("lock.ErrLockNotLocked", "NotLocked"),
   ("timermap.ErrTimerDoesNotExist", "LockDoesNotExistOrInvalidKey"),
+  ("server.ErrLockDoesNotExistOrInvalidKey", "LockDoesNotExistOrInvalidKey"),
   ("lock.ErrInvalidLockSize", "InvalidLockSize"),
   ("lock.ErrLockSizeMismatch", "LockSizeMismatch")
 ]
@@ -111,7 +112,7 @@ def bodyIpcUnlock : String := "{ log.Info(\"Handling IPC Unlock request\", \"nam
 
 def bodyDestroySession : String := "{ sessionId = ctx.Value(sessionCtxKey).(string) if l.isShutdown.Load() { return } ctxLog := log.FromContextOrDefault(ctx) ctxLog.Info(\"Session ended\") locks := l.sessionMgr.DestroySession(sessionId) if l.noClearOnDisconnect || len(locks) == 0 { return } ctxLog.Info(\"Client session cleanup\", \"num_locks\", len(locks), ) for _, lk := range locks { if unlocked, err := l.lockMgr.Unlock(lk.Name(), lk.Key()); err != nil || !unlocked { ctxLog.Error( \"Error unlocking lock during client session cleanup\", \"lock\", lk.Name(), \"key\", lk.Key(), \"error\", err, ) } else { ctxLog.Info( \"Unlocked during client session cleanup\", \"lock\", lk.Name(), ) l.lockTimerMgr.Remove(lockTimerKey(lk.Name(), lk.Key())) } } return }"
 
-def bodyTimerReset : String := "{ m.timersMtx.RLock() t, ok := m.timers[key] m.timersMtx.RUnlock() if ok { if t.Stop() { t.Reset(timeout) return true, nil } else { return false, nil } } return false, ErrTimerDoesNotExist }"
+def bodyTimerReset : String := "{ m.timersMtx.Lock() defer m.timersMtx.Unlock() t, ok := m.timers[key] if ok { if t.Stop() { t.Reset(timeout) return true, nil } else { return false, nil } } return false, ErrTimerDoesNotExist }"
 
 def bodyStoreWrite : String := "{ if l.fh == nil { return nil } d := marshalLocks(sessionLocks) l.fh.Truncate(0) l.fh.Seek(0, io.SeekStart) if _, err := l.fh.Write(d); err != nil { panic(err) } l.fh.Sync() return nil }"
 
@@ -122,6 +123,7 @@ def restRoutes : List (String × String × String) := [
 ]
 
 def mainCloserOrder : List String := [
+  "lockSrv.SetShuttingDown",
   "netCloser",
   "lockSrvCloser"
 ]
